@@ -18,6 +18,7 @@ from ..common import rng_for, split
 from ..oracle import si_ref
 from ..oracle.stft_ref import compare_features
 
+OPTIMIZED_SHARDS = 1  # shards run once more in an interpreter started with -O (vf/run.py)
 LEVEL = "exploration"
 TECHNIQUE = "history monitor on compute_chunk/finalize vs compute_full of a fresh twin; exhaustive enumeration of all 2^(N-1) chunk compositions on tiny geometries; poison-fill sanitizer"
 RULE = (
@@ -408,6 +409,31 @@ def run_case(case, rec, mon=None):
                     rec.count("streams_of_many_frame_chunks_over_120dB_of_dynamic_range")
                 except Exception as e:
                     rec.note("dynamic-range stream raised %r" % (e,))
+            if case["idx"] % 2 == 1:
+                # compute_full handed the recording as the caller has it - one channel of an interleaved recording, every third sample of
+                # a longer one, read backwards - at lengths with and without padding on either side: the same features as from a contiguous
+                # copy (which is what the streamed chunks amount to)
+                fl_, fs_ = int(comp.frame_length), int(comp.frame_shift)
+                for N in sorted({3 * fl_ + 1, 2 * fl_ + fs_, fl_ + 4 * fs_ + (fl_ - fs_) % max(fs_, 1), 5 * fs_ + fl_, 84 * max(1, fs_ // 8) + fl_}):
+                    base = gen.signal(rng, int(N), "noise", np.float64)
+                    lay = (case["idx"] // 2 + N) % 3
+                    if lay == 0:
+                        big = np.zeros((N, 2)); big[:, 0] = base; view = big[:, 0]
+                    elif lay == 1:
+                        big = np.zeros(3 * N); big[::3] = base; view = big[::3]
+                    else:
+                        big = np.array(base[::-1]); view = big[::-1]
+                    try:
+                        with monitor.quiet():
+                            a_ = np.asarray(comp.compute_full(view))
+                            b_ = np.asarray(comp.compute_full(np.ascontiguousarray(base)))
+                        rec.ev()
+                        rec.count("compute_full_on_non_contiguous_recordings")
+                        if a_.shape != b_.shape or not np.allclose(a_, b_, rtol=1e-9, atol=1e-12, equal_nan=True):
+                            mon.v("compute_full of a non-contiguous recording (layout %d, N=%d) differs from compute_full of its contiguous copy" % (lay, N), check="value",
+                                  kind="stft" if isinstance(comp, C.ShortTimeFourierTransformFrameComputer) else "si", N=int(N), fl=fl_, fs=fs_, style=comp.frame_style)
+                    except Exception as e:
+                        rec.note("compute_full on a view raised %r" % (e,))
             # always: a refused (integer) chunk before and in the middle of an ordinary utterance
             x = gen.signal(rng, int(comp.frame_length + 2 * comp.frame_shift + 3), "noise")
             x.setflags(write=False)
